@@ -77,6 +77,8 @@ type mdSummary struct {
 	Panic   string `json:"panic,omitempty"`
 	ErrText string `json:"err,omitempty"`
 	icc     []byte
+	// sourceDependent is set by C19 when a specific loader's outcome depends on the reader's type
+	sourceDependent string
 }
 
 func fnv64(b []byte) uint64 {
